@@ -227,7 +227,13 @@ def r3_unknown_and_repeated_names_raise(ctx):
     ok = any((f"({nmv})in(self._included)", False) in _facts_at(g2, r) and (f"({nmv})in(self._ignored)", False) in _facts_at(g2, r) for r in rs)
     ctx.ob(ig.where, "a name that is neither included nor ignored raises", ok, "", key="C12-R3|unknown-raises")
     first = [g2.nodes[b] for b, l in g2.succ[loopv[0].id] if l == "iter"]
-    bad = g2.path(first, [loopv[0]], blocked=lambda n: n in ys or n in conts or is_raise(n), start_after=False)
+    skipped = []        # statements that run only for an ignored name: reaching the end of the loop body through them IS the skip (if / elif / else form without `continue`)
+    for _ in range(8):
+        bad = g2.path(first, [loopv[0]], blocked=lambda n: n in ys or n in conts or n in skipped or is_raise(n), start_after=False)
+        via = [n for n, _ in (bad or []) if n.kind == "stmt" and (f"({nmv})in(self._ignored)", True) in _facts_at(g2, n)]
+        if not via:
+            break
+        skipped.append(via[0])
     ctx.ob(ig.where, "no group falls through without being passed on, skipped as ignored, or raising", bad is None, CFG.show(bad) if bad else "")
     yv = [x for x in ast.walk(ys[0].ast) if isinstance(x, ast.Yield)][0]
     ctx.ob(ig.where, "groups are passed on unchanged", u(yv.value) == u(loopv[0].ast.target), u(yv.value))
